@@ -198,7 +198,7 @@ Variable FFIManager::callFunction(const std::string &module_name,
 
     Variable result;
 
-    if (sig.return_type == TYPE_DOUBLE || sig.return_type == TYPE_FLOAT) {
+    if (sig.return_type == TYPE_DOUBLE) {
         result.type = TYPE_DOUBLE;
 
         if (sig.parameters.size() == 1 &&
